@@ -254,6 +254,16 @@ class Engine:
         sf.old_ghost = getattr(fr, "entry_ghost", None)
         return self.eval_spec_in(I, expr, sf)
 
+    def eval_spec_old(self, I, expr, fr, extra_env):
+        """evaluate a specification expression entirely in the pre-state"""
+        sf = Frame(fr.finfo, dict(extra_env), fr.module, fr.cls)
+        sf.closure = fr
+        sf.spec = True
+        sf.old_heap = getattr(fr, "entry_heap", None)
+        sf.old_ghost = getattr(fr, "entry_ghost", None)
+        sf.in_old = True
+        return self.eval_spec_in(I, expr, sf)
+
     def eval_spec_in(self, I, expr, sf):
         if callable(expr):
             return expr(I, sf)
@@ -323,7 +333,9 @@ class Engine:
                 complete += 1
                 outcomes[out] = outcomes.get(out, 0) + 1
             except PathEnd:
-                pass
+                import os as _os
+                if _os.environ.get("PYVC_TRACE"):
+                    traceback.print_exc(limit=-6)
             except Unsupported as u:
                 msg = "%s: %s" % (qualname, u)
                 if msg not in unsupported:
@@ -388,9 +400,24 @@ class Engine:
         except (BreakSig, ContinueSig):
             raise Unsupported("break/continue outside loop")
         env = {"result": result}
+        env.update({p: v for p, v in fr.entry_locals.items()})
         for lab, e in calls.labelled(c.get("ensures")):
             t = I.truthy(self.eval_spec(I, e, fr, env))
             st.oblige("%s::ensures(%s)" % (qualname, lab), t)
+        # behaviours: guard (in the pre-state) => result / fields have the specified values
+        for ci, case in enumerate(c.get("cases") or []):
+            lab = case.get("name", "#%d" % ci)
+            g = zbool(I.truthy(self.eval_spec_old(I, case["when"], fr, env)))
+            if "result" in case:
+                want = self.eval_spec_old(I, case["result"], fr, env)
+                st.oblige("%s::case(%s).result" % (qualname, lab), z3.Implies(g, zbool(I.equal(result, want))))
+            for lv, ex in (case.get("post") or {}).items():
+                want = self.eval_spec_old(I, ex, fr, env)
+                sfc = Frame(fr.finfo, dict(env), fr.module, fr.cls)
+                sfc.closure = fr
+                sfc.spec = True
+                cur = calls.read_lvalue(I, lv, sfc)
+                st.oblige("%s::case(%s).post(%s)" % (qualname, lab, lv), z3.Implies(g, zbool(I.equal(cur, want))))
         post = c.get("post_check")
         if post:
             post(I, fr, result)
@@ -408,6 +435,7 @@ class Engine:
                 else:
                     conds = [cond]
                 env = {"exc": pe.exc}
+                env.update({p: v for p, v in fr.entry_locals.items()})
                 for i, cd in enumerate(conds):
                     t = I.truthy(self.eval_spec(I, cd, fr, env))
                     st.oblige("%s::raises(%s)#%d" % (qualname, allowed, i), t)
